@@ -245,6 +245,13 @@ func returnsPartsOf(g *ssa.Function) (int, bool) {
 	if node == nil {
 		return 0, false
 	}
+	// a list handed in and handed back with the parts appended to it
+	var listParam *ssa.Parameter
+	for _, pr := range g.Params {
+		if types.Identical(pr.Type(), g.Signature.Results().At(0).Type()) {
+			listParam = pr
+		}
+	}
 	seen := map[ssa.Value]bool{}
 	var elemsOK func(v ssa.Value, d int) bool
 	elemsOK = func(v ssa.Value, d int) bool {
@@ -256,6 +263,8 @@ func returnsPartsOf(g *ssa.Function) (int, bool) {
 			return false
 		}
 		switch x := v.(type) {
+		case *ssa.Parameter:
+			return listParam != nil && x == listParam
 		case *ssa.Const:
 			return x.IsNil()
 		case *ssa.MakeSlice:
@@ -1735,58 +1744,112 @@ func ruleTokenProgress(p *Program, r *Reporter) {
 	}
 	// accumulates[F]: F returns a string that is "" or grown only in blocks that advance
 	accumulates := map[*ssa.Function]bool{}
-	for _, f := range fns {
-		rs := sigResults(f)
-		if len(rs) != 1 || !isStringType(rs[0]) {
-			continue
+	// the position field, and who writes it
+	posField := ""
+	for _, b := range adv.Blocks {
+		for _, ins := range b.Instrs {
+			if st, ok := ins.(*ssa.Store); ok {
+				if k := fieldKey(st.Addr); strings.HasPrefix(k, "lexer.Lexer.") && isInt(deref(st.Addr.Type())) && posField == "" {
+					posField = k
+				}
+			}
 		}
-		ok := true
-		n := 0
+	}
+	posWriters := map[*ssa.Function]bool{}
+	for _, f := range fns {
 		for _, b := range f.Blocks {
-			ret, isRet := terminator(b).(*ssa.Return)
-			if !isRet {
+			for _, ins := range b.Instrs {
+				if st, ok := ins.(*ssa.Store); ok && posField != "" && fieldKey(st.Addr) == posField {
+					posWriters[f] = true
+				}
+			}
+		}
+	}
+	for pass := 0; pass < 3; pass++ {
+		for _, f := range fns {
+			rs := sigResults(f)
+			if len(rs) != 1 || !isStringType(rs[0]) || accumulates[f] {
 				continue
 			}
-			seen := map[ssa.Value]bool{}
-			var chk func(v ssa.Value)
-			chk = func(v ssa.Value) {
-				if seen[v] {
-					return
+			ok := true
+			n := 0
+			for _, b := range f.Blocks {
+				ret, isRet := terminator(b).(*ssa.Return)
+				if !isRet {
+					continue
 				}
-				seen[v] = true
-				switch x := v.(type) {
-				case *ssa.Const:
-					if x.Value == nil || x.Value.Kind() != constant.String || constant.StringVal(x.Value) != "" {
-						ok = false
-					}
-				case *ssa.Phi:
-					for _, e := range x.Edges {
-						chk(e)
-					}
-				case *ssa.BinOp:
-					if x.Op != token.ADD {
-						ok = false
+				seen := map[ssa.Value]bool{}
+				var chk func(v ssa.Value)
+				chk = func(v ssa.Value) {
+					if seen[v] {
 						return
 					}
-					n++
-					has := false
-					for _, ins := range x.Block().Instrs {
-						if advCall(ins) {
-							has = true
+					seen[v] = true
+					switch x := v.(type) {
+					case *ssa.Const:
+						if x.Value == nil || x.Value.Kind() != constant.String || constant.StringVal(x.Value) != "" {
+							ok = false
 						}
-					}
-					if !has {
+					case *ssa.Phi:
+						for _, e := range x.Edges {
+							chk(e)
+						}
+					case *ssa.BinOp:
+						if x.Op != token.ADD {
+							ok = false
+							return
+						}
+						n++
+						has := false
+						for _, ins := range x.Block().Instrs {
+							if advCall(ins) {
+								has = true
+							}
+						}
+						if !has {
+							ok = false
+						}
+						chk(x.X)
+					case *ssa.Call:
+						// what another such reader returned
+						if c := x.Call.StaticCallee(); c != nil && accumulates[c] {
+							n++
+							return
+						}
+						ok = false
+					case *ssa.Convert:
+						// the text between the position the reader started at and
+						// the position it stopped at: not empty only if the position
+						// moved, and only the advancing function moves it
+						sl, isSl := x.X.(*ssa.Slice)
+						if !isSl || sl.Low == nil || sl.High == nil || len(posWriters) != 1 || !posWriters[adv] {
+							ok = false
+							return
+						}
+						lo, isLo := sl.Low.(*ssa.UnOp)
+						hi, isHi := sl.High.(*ssa.UnOp)
+						if !isLo || !isHi || fieldKey(lo.X) != posField || fieldKey(hi.X) != posField {
+							ok = false
+							return
+						}
+						// the start is read before anything advances
+						for _, bb := range f.Blocks {
+							for _, ins := range bb.Instrs {
+								if advCall(ins) && !dominatesInstr(lo, ins) {
+									ok = false
+								}
+							}
+						}
+						n++
+					default:
 						ok = false
 					}
-					chk(x.X)
-				default:
-					ok = false
 				}
+				chk(returnOperand(ret, 0))
 			}
-			chk(returnOperand(ret, 0))
-		}
-		if ok && n > 0 {
-			accumulates[f] = true
+			if ok && n > 0 {
+				accumulates[f] = true
+			}
 		}
 	}
 	// must-dataflow over NextToken
